@@ -170,6 +170,18 @@ func init() {
 	// ---------------- strings ----------------
 	I["strings.HasPrefix"] = func(c *icall) ([]*State, bool) { c.set(BoolV{strHasPrefix(c.str(0), c.str(1))}); return nil, false }
 	I["strings.HasSuffix"] = func(c *icall) ([]*State, bool) { c.set(BoolV{strHasSuffix(c.str(0), c.str(1))}); return nil, false }
+	I["strings.ContainsAny"] = func(c *icall) ([]*State, bool) {
+		set := c.str(1)
+		if set.K != SLit {
+			panic(engineErr("strings.ContainsAny with a symbolic character set"))
+		}
+		var any []string
+		for i := 0; i < len(set.S); i++ {
+			any = append(any, strContains(c.str(0), litStr(set.S[i:i+1])))
+		}
+		c.set(BoolV{tOr(any...)})
+		return nil, false
+	}
 	I["strings.Contains"] = func(c *icall) ([]*State, bool) { c.set(BoolV{strContains(c.str(0), c.str(1))}); return nil, false }
 	I["strings.EqualFold"] = func(c *icall) ([]*State, bool) {
 		c.set(BoolV{strEq(c.w.strMap(c.s, c.str(0), toLowerChar, "strings.ToLower"), c.w.strMap(c.s, c.str(1), toLowerChar, "strings.ToLower"))})
